@@ -22,6 +22,8 @@ type c15Case struct {
 	Kind   string `json:"kind"`
 	Digits []int  `json:"digits"`
 	HTML   bool   `json:"html_state"`
+	Pre    string `json:"text_before_every_marker,omitempty"`
+	Suf    string `json:"text_after_every_marker,omitempty"`
 }
 
 type listOpt struct{ items, seps int }
@@ -166,8 +168,15 @@ func c15One(c *core.Ctx, cs c15Case, thorough bool) {
 		return
 	}
 	spec := c15Spec(fs, dims, cs.Digits, thorough)
+	astx.MarkerPre, astx.MarkerSuf = cs.Pre, cs.Suf
 	b := astx.Build(mk, spec, nil)
+	astx.MarkerPre, astx.MarkerSuf = "", ""
 	out, pan := printNode(b.Node, cs.HTML)
+	if cs.Pre != "" || cs.Suf != "" {
+		astx.MarkerPre, astx.MarkerSuf = cs.Pre, cs.Suf
+		out = astx.UnwrapMarkers(out)
+		astx.MarkerPre, astx.MarkerSuf = "", ""
+	}
 	ctx := func() string { return fmt.Sprintf("%s slots %v html=%v → %q", cs.Kind, specString(fs, spec), cs.HTML, out) }
 	if pan != nil {
 		c.Report("print "+cs.Kind+": panic", fmt.Sprintf("%s slots %v: %v", cs.Kind, specString(fs, spec), pan), cs)
@@ -428,6 +437,16 @@ func c15Run(c *core.Ctx) {
 				cs := c15Case{Mode: "slot", Kind: kn, Digits: digits, HTML: html}
 				c15One(c, cs, c.Thorough())
 				c.P.States++
+				if !html {
+					// the same node with every token, value and child text ending like a close tag / starting like an open
+					// tag: the printer decides from the text it writes whether it is inside PHP
+					for _, w := range [][2]string{{"", "?>"}, {"", "?>\n"}, {"<?php ", ""}} {
+						cw := cs
+						cw.Pre, cw.Suf = w[0], w[1]
+						c15One(c, cw, c.Thorough())
+						c.Stat("prints_with_tag_like_texts", 1)
+					}
+				}
 				if idx > 0 {
 					c.NontrivialH(core.Hash(kn) ^ uint64(idx)*2654435761 ^ boolU(html))
 				}
